@@ -5,6 +5,8 @@ package main
 import (
 	"go/types"
 	"strings"
+
+	"golang.org/x/tools/go/ssa"
 )
 
 func (e *Engine) declAddrStr() {
@@ -30,6 +32,19 @@ func init() {
 	modAddr := func(c *callCtx) Val {
 		return c.e().freshAddrSlice(c, "modaddr", c.rt, app("addr_mod", c.args[0].S))
 	}
+	// crypto.Keccak256(data...): a function of the byte content for a single argument (keccak1); 32 bytes
+	libSpecs["github.com/ethereum/go-ethereum/crypto.Keccak256"] = func(c *callCtx) Val {
+		e := c.e()
+		e.vc.declFun("keccak1", []string{"BV"}, "BV")
+		r := e.freshVal(c.st, "keccak", c.rt)
+		e.assumeIn(c.st, and(eq(app("slen", r.S), "32"), not(eq(app("sptr", r.S), "0"))))
+		va := c.args[0]
+		sl := types.Unalias(va.T).Underlying().(*types.Slice)
+		hn, hs := e.vc.arrHeapName(sl.Elem())
+		el := Val{S: e.vc.define("kin", "Slice", app("select", app("select", e.heap(c.st, hn, hs), app("sptr", va.S)), app("idx", app("soff", va.S), "0"))), T: sl.Elem()}
+		e.assumeIn(c.st, implies(eq(app("slen", va.S), "1"), eq(e.bvOf(c.st, r), app("keccak1", e.bvOf(c.st, el)))))
+		return r
+	}
 	libSpecs[auth+".NewModuleAddressOrBech32Address"] = modAddr
 	libSpecs[auth+".NewModuleAddress"] = modAddr
 	libSpecs["("+sdkT+".AccAddress).String"] = func(c *callCtx) Val {
@@ -46,7 +61,11 @@ func init() {
 	libSpecs["("+sdkT+".ValAddress).Bytes"] = func(c *callCtx) Val { return Val{S: c.args[0].S, T: c.rt} }
 	libSpecs["("+sdkT+".AccAddress).Equals"] = func(c *callCtx) Val {
 		e := c.e()
-		// second argument is an sdk.Address interface; only the nil/identity cases are modelled
+		// Equals(aa2 sdk.Address): both empty, or equal bytes -- i.e. equal contents -- when aa2 holds an AccAddress
+		if mi, ok := c.common.Args[1].(*ssa.MakeInterface); ok && strings.HasSuffix(namedPath(mi.X.Type()), "cosmos-sdk/types.AccAddress") {
+			other := c.fr.get(mi.X)
+			return c.def("acceq", eq(e.bvOf(c.st, c.args[0]), e.bvOf(c.st, other)))
+		}
 		return c.fr.pureHavoc(c).withNote(e, "AccAddress.Equals unconstrained")
 	}
 	libSpecs[sdkT+".AccAddressFromBech32"] = func(c *callCtx) Val {
